@@ -75,6 +75,8 @@ def gen_cases(rng, tier):
         norb = rng.randint(2, 3)
         na, nb = rng.randint(0, norb), rng.randint(0, norb)
         rec = rng.choice(['diag', 'quad', 'dc2', 'individual'])
+        if k % 3 == 2:
+            rec = 'flip'      # single spin-flipping term + h.c. on a number-conserving, spin-broken wavefunction (set below)
         cases.append({'kind': 'unitary', 'norb': norb, 'n': na + nb, 'sz': na - nb, 'rec': rec,
                       'scale': rng.choice([1.0, 1e3, 1e6]), 't': rng.choice([40.0, 1e3, 12345.678, -7e4]),
                       'seed': rng.randrange(10 ** 6), 'steps': rng.choice([1, 25])})
@@ -115,14 +117,30 @@ def run_impl(case, mode):
             ham = fqe.get_restricted_hamiltonian((sc * (a + a.conj().T),))
         elif case['rec'] == 'dc2':
             ham = fqe.get_diagonalcoulomb_hamiltonian(sc * rs.randn(norb, norb))
+        elif case['rec'] == 'flip':
+            # the exact single-term route for terms that change S_z: every shape (alpha creators, alpha annihilators,
+            # beta creators, beta annihilators) with up to three operators per spin that conserves the particle number
+            from openfermion import FermionOperator, hermitian_conjugated
+            norb = 3
+            shapes = [(ac, aa, bc, ba) for ac in range(3) for aa in range(3) for bc in range(3) for ba in range(3)
+                      if ac + bc == aa + ba and ac != aa and 1 <= ac + bc <= 3]
+            ac, aa, bc, ba = shapes[case['seed'] % len(shapes)]
+            cr = [2 * i for i in rs.permutation(norb)[:ac]] + [2 * i + 1 for i in rs.permutation(norb)[:bc]]
+            an = [2 * i for i in rs.permutation(norb)[:aa]] + [2 * i + 1 for i in rs.permutation(norb)[:ba]]
+            op = FermionOperator(tuple((int(q), 1) for q in cr) + tuple((int(q), 0) for q in an), sc * complex(rs.randn(), rs.randn()))
+            ham = fqe.get_sparse_hamiltonian(op + hermitian_conjugated(op), conserve_spin=False)
+            nel = int(rs.choice([2, 3, 3, 4]))
+            wfn = fqe.get_number_conserving_wavefunction(nel, norb)
+            wfn.set_wfn(strategy='random')
         else:
             from openfermion import FermionOperator
             c = sc * complex(rs.randn(), rs.randn())
             ham = fqe.get_sparse_hamiltonian(FermionOperator('0^ 2', c) + FermionOperator('2^ 0', c.conjugate()))
         w = wfn
+        n0 = float(wfn.norm())
         for _ in range(case['steps']):
             w = w.time_evolve(case['t'] / case['steps'], ham)
-        return {'norm': float(w.norm()), 'finite': bool(all(numpy.isfinite(w.sector(k).coeff).all() for k in w.sectors()))}
+        return {'norm': float(w.norm()) / n0, 'finite': bool(all(numpy.isfinite(w.sector(k).coeff).all() for k in w.sectors()))}
     raise ValueError(case['kind'])
 
 
